@@ -67,6 +67,7 @@ func c04(c *core.Check) {
 	c04languagesValidatedFirst(c)
 	c04includeSearch(c)
 	c04fieldDefaults(c)
+	c04backendRulesReach(c)
 	c04E4(c, inv, fns, parent)
 	c04E5(c, fns)
 	c04E6(c, reach)
